@@ -36,10 +36,16 @@ def labels(cat: dict) -> list[str]:
     return ["%s %s" % (text(o["method"]).upper(), text(o["path"])) for o in cat["ops"]]
 
 
-def build_raw(cat: dict) -> dict:
-    """OpenAPI document of the universe: /u and /u/{id} are shared path items (several methods, path-level parameters), /s1 and
-    /s2 reach one path item through the same $ref, `PUT` in upper case is not an operation of the document."""
+def build_raw(cat: dict, dialect: str = "oas30") -> dict:
+    """Document of the universe in the given dialect (OpenAPI 3.0 / 3.1 / Swagger 2.0): /u and /u/{id} are shared path items
+    (several methods, path-level parameters), /s1 and /s2 reach one path item through the same $ref, `PUT` in upper case is not
+    an operation of the document; links are written inline, as a $ref to a reusable link, or inside a $ref'd response."""
     ops = cat["ops"]
+    v2 = dialect == "swagger20"
+    links_key = "x-links" if v2 else "links"
+    body_schema = {"type": "object", "properties": {"n": {"type": "integer"}}, "required": ["n"], "additionalProperties": False}
+    shared_links: dict = {}
+    shared_responses: dict = {}
 
     def definition(i: int) -> dict:
         op = ops[i]
@@ -51,9 +57,13 @@ def build_raw(cat: dict) -> dict:
         if op["depr"] != "absent":
             d["deprecated"] = op["depr"] == "true"
         if text(op["method"]) in ("post", "patch"):
-            d["requestBody"] = {"required": True, "content": {"application/json": {"schema": {
-                "type": "object", "properties": {"n": {"type": "integer"}}, "required": ["n"], "additionalProperties": False}}}}
+            if v2:
+                d["parameters"] = [{"name": "payload", "in": "body", "required": True, "schema": body_schema}]
+                d["consumes"] = ["application/json"]
+            else:
+                d["requestBody"] = {"required": True, "content": {"application/json": {"schema": body_schema}}}
         lk = {}
+        via_response = False
         for n, link in enumerate(cat["links"], 1):
             if link["src"] != i + 1:
                 continue
@@ -62,26 +72,43 @@ def build_raw(cat: dict) -> dict:
                    {"operationRef": "#/paths/%s/%s" % (text(tgt["path"]).replace("~", "~0").replace("/", "~1"), text(tgt["method"]))})
             expr = "$request.path.id" if "{id}" in text(op["path"]) else (
                 "$response.body#/0/id" if text(op["method"]) == "get" else "$response.body#/id")
-            lk["link%d" % n] = dict(ref, parameters={"id": expr})
+            obj = dict(ref, parameters={"id": expr})
+            via = link.get("via", "inline")
+            if via == "ref-link":
+                shared_links["Link%d" % n] = obj
+                obj = {"$ref": ("#/x-link-defs/Link%d" if v2 else "#/components/links/Link%d") % n}
+            elif via == "ref-response":
+                via_response = True
+            lk["link%d" % n] = obj
         if lk:
-            d["responses"]["200"]["links"] = lk
+            if via_response:
+                shared_responses["Linked%d" % i] = {"description": "ok", links_key: lk}
+                d["responses"]["200"] = {"$ref": ("#/responses/Linked%d" if v2 else "#/components/responses/Linked%d") % i}
+            else:
+                d["responses"]["200"][links_key] = lk
         return d
 
     paths: dict = {}
     shared: dict = {}
+    id_param = {"name": "id", "in": "path", "required": True}
+    id_param.update({"type": "integer", "minimum": 0, "maximum": 9} if v2 else {"schema": {"type": "integer", "minimum": 0, "maximum": 9}})
     for i, op in enumerate(ops):
         p, m = text(op["path"]), text(op["method"])
         if op["shared"]:
             shared.setdefault(m, definition(i))
-            paths[p] = {"$ref": "#/components/x-path-items/Shared"}
+            paths[p] = {"$ref": "#/x-path-items/Shared" if v2 else "#/components/x-path-items/Shared"}
         else:
             item = paths.setdefault(p, {})
             if "{id}" in p and "parameters" not in item:
-                item["parameters"] = [{"name": "id", "in": "path", "required": True, "schema": {"type": "integer", "minimum": 0, "maximum": 9}}]
+                item["parameters"] = [id_param]
             item[m] = definition(i)
     paths["/u"]["PUT"] = {"responses": {"200": {"description": "upper-case key: not an operation"}}}
-    return {"openapi": "3.0.2", "info": {"title": "c07", "version": "1"}, "paths": paths,
-            "components": {"x-path-items": {"Shared": shared}}}
+    info = {"title": "c07", "version": "1"}
+    if v2:
+        return {"swagger": "2.0", "info": info, "basePath": "/", "paths": paths, "x-path-items": {"Shared": shared},
+                "x-link-defs": shared_links, "responses": shared_responses}
+    return {"openapi": "3.1.0" if dialect == "oas31" else "3.0.2", "info": info, "paths": paths,
+            "components": {"x-path-items": {"Shared": shared}, "links": shared_links, "responses": shared_responses}}
 
 
 def regex_of(how: str, lit: str) -> str:
@@ -92,11 +119,13 @@ def regex_of(how: str, lit: str) -> str:
 def expr_of(a: dict) -> str:
     ptr = text(a["vs"][0])
     return {"eq_str": '%s == "%s"' % (ptr, text(a["v"])), "ne_str": '%s != "%s"' % (ptr, text(a["v"])),
+            "eq_raw": "%s == %s" % (ptr, text(a["v"])),
             "eq_true": "%s == true" % ptr, "ne_true": "%s != true" % ptr}[a["how"]]
 
 
-def py_call(fdef: list[dict]) -> dict:
-    """kwargs of one schema.include(...) / exclude(...) call for a catalogue filter (deprecated -> {"deprecated": True})."""
+def py_call(fdef: list[dict], rx: str = "text") -> dict:
+    """kwargs of one schema.include(...) / exclude(...) call for a catalogue filter (deprecated -> {"deprecated": True});
+    rx = "compiled": regular expressions are passed as compiled patterns."""
     kw: dict = {}
     for a in fdef:
         by, how = a["by"], a["how"]
@@ -109,7 +138,7 @@ def py_call(fdef: list[dict]) -> dict:
         elif how == "list":
             kw[by] = [text(v) for v in a["vs"]]
         else:
-            kw[by + "_regex"] = regex_of(how, text(a["v"]))
+            kw[by + "_regex"] = re.compile(regex_of(how, text(a["v"]))) if rx == "compiled" else regex_of(how, text(a["v"]))
     return kw
 
 
@@ -157,7 +186,7 @@ def _setup(cat: dict) -> dict:
         from .compat import enable_links
 
         enable_links()
-        raw = build_raw(cat)
+        raws = {d: build_raw(cat, d) for d in ("oas30", "oas31", "swagger20")}
         lab = labels(cat)
         rule_map: dict = {}
         for n, link in enumerate(cat["links"], 1):
@@ -166,7 +195,7 @@ def _setup(cat: dict) -> dict:
         for o, l in enumerate(lab, 1):
             rule_map[_normalize_name("RANDOM -> " + l)] = ("root", o, o)
         _state.clear()
-        _state.update(key=key, raw=raw, labels=lab, schemathesis=schemathesis, FilterArguments=FilterArguments, Ok=Ok,
+        _state.update(key=key, raws=raws, labels=lab, schemathesis=schemathesis, FilterArguments=FilterArguments, Ok=Ok,
                       expr=expression_to_filter_function, lazy=lazy, rule_map=rule_map)
     return _state
 
@@ -192,12 +221,13 @@ def build_schema(case: dict, cat: dict, base_url: str | None = None):
     rng = random.Random(_element_seed(case))
     calls = [("include", f) for f in case["incl"]] + [("exclude", f) for f in case["excl"]]
     rng.shuffle(calls)  # the order of filter calls must not matter
-    schema = sch.openapi.from_dict(st["raw"])
+    rx = case.get("rx", "text")
+    schema = sch.openapi.from_dict(st["raws"][case.get("dialect", "oas30")])
     if base_url:
         schema = schema.configure(base_url=base_url)
     if case["door"] == "py":
         for mode, f in calls:
-            schema = _apply(schema, mode, py_call(cat["filters"][f - 1]), st)
+            schema = _apply(schema, mode, py_call(cat["filters"][f - 1], rx), st)
         return schema
     if case["door"] == "cli":
         fields, _ = cli_arguments(cat, case["incl"], case["excl"])
@@ -211,7 +241,7 @@ def build_schema(case: dict, cat: dict, base_url: str | None = None):
         schema = _apply(schema, "exclude", py_call(cat["filters"][f - 1]), st)
     lazy_schema = sch.pytest.from_fixture("fixture_schema")
     for mode, f in calls:
-        lazy_schema = _apply(lazy_schema, mode, py_call(cat["filters"][f - 1]), st)
+        lazy_schema = _apply(lazy_schema, mode, py_call(cat["filters"][f - 1], rx), st)
 
     class Request:  # the only thing lazy.get_schema needs from pytest's request
         def getfixturevalue(self, name):
@@ -380,11 +410,80 @@ def signatures(case: dict, obs: dict, cat: dict) -> dict[str, tuple[str, int, st
 def describe(case: dict, cat: dict) -> str:
     def f(ids):
         return ", ".join(json.dumps(py_call(cat["filters"][i - 1]), sort_keys=True) for i in ids) or "-"
-    s = "door=%s include=[%s] exclude=[%s]" % (case["door"], f(case["incl"]), f(case["excl"]))
+    s = "door=%s dialect=%s regex=%s include=[%s] exclude=[%s]" % (
+        case["door"], case.get("dialect", "oas30"), case.get("rx", "text"), f(case["incl"]), f(case["excl"]))
     if case["door"] == "lazy":
         b = cat["bases"][case["base"] - 1]
         s += " fixture include=[%s] exclude=[%s]" % (f(b["incl"]), f(b["excl"]))
     return s
+
+
+# ---------------------------------------------------------------------------------------------------
+# GraphQL (spec/FiltersGraphQL.tla): the same filters on a schema whose operations are Query / Mutation fields
+# ---------------------------------------------------------------------------------------------------
+def graphql_sdl(gcat: dict) -> str:
+    roots: dict = {}
+    for op in gcat["ops"]:
+        roots.setdefault(text(op["root"]), []).append(text(op["field"]))
+    sdl = "type Item { id: Int! name: String }\n"
+    for root, fields in roots.items():
+        args = "(name: String!)" if root == "Mutation" else ""
+        sdl += "type %s { %s }\n" % (root, " ".join("%s%s: Item!" % (f, args) for f in fields))
+    return sdl
+
+
+def observe_graphql(case: dict, gcat: dict) -> dict:
+    import schemathesis
+    from schemathesis.cli.commands.run.filters import FilterArguments
+    from schemathesis.core.result import Ok
+
+    lab = [text(o["label"]) for o in gcat["ops"]]
+    out = {"door": case["door"], "incl": case["incl"], "excl": case["excl"], "err": 0, "exc": "", "vec": [0] * len(lab), "sel": -1, "total": -1}
+    try:
+        schema = schemathesis.graphql.from_file(graphql_sdl(gcat)).configure(base_url="http://127.0.0.1:1" + text(gcat["ops"][0]["path"]))
+        if case["door"] == "py":
+            calls = [("include", f) for f in case["incl"]] + [("exclude", f) for f in case["excl"]]
+            random.Random(_element_seed(dict(case, base=0))).shuffle(calls)
+            for mode, f in calls:
+                schema = getattr(schema, mode)(**py_call(gcat["filters"][f - 1]))
+        else:
+            fields, _ = cli_arguments(gcat, case["incl"], case["excl"])
+            schema.filter_set = FilterArguments(**fields).into()
+        vec, foreign = vector(lab, [r.ok().label for r in schema.get_all_operations() if isinstance(r, Ok)])
+        st = schema.statistic
+        out.update(vec=vec, sel=st.operations.selected, total=st.operations.total + foreign)
+    except Exception as exc:  # every enumerated filter set is one the API accepts
+        out.update(err=1, exc="%s: %s" % (type(exc).__name__, exc))
+    return out
+
+
+def graphql_disagreements(case: dict, obs: dict) -> set[tuple[int, str]]:
+    if obs["err"]:
+        return {(0, "raised")}
+    out: set = set()
+    for o, (x, e) in enumerate(zip(obs["vec"], case["expect"]), 1):
+        if e != -1 and x != e:
+            out.add((o, "leak" if x == 1 else "dropped"))
+    if obs["sel"] != case["sel"]:
+        out.add((0, "ops-selected"))
+    if obs["total"] != case["total"]:
+        out.add((0, "ops-total"))
+    return out
+
+
+def graphql_signature(case: dict, gcat: dict, o: int, kind: str) -> str:
+    kinds = sorted({_kind(gcat["filters"][f - 1]) for f in case["incl"] + case["excl"]})
+    if kind == "raised":
+        # attribute kinds present in every raising element are what the failure hinges on; the caller intersects them
+        return "C07:graphql-%s:selection:raised:%s" % (case["door"], "+".join(kinds))
+    if kind in ("leak", "dropped"):
+        return "C07:graphql-%s:selection:%s" % (case["door"], kind)
+    return "C07:graphql-%s:stat:%s" % (case["door"], kind)
+
+
+def _work_graphql(item: str) -> dict:
+    case, gcat = json.loads(item)
+    return observe_graphql(case, gcat)
 
 
 # ---------------------------------------------------------------------------------------------------
@@ -396,7 +495,7 @@ def observe_tree(case: dict, cat: dict) -> dict:
     st = _setup(cat)
     sch = st["schemathesis"]
     lab = st["labels"]
-    fixture = sch.openapi.from_dict(st["raw"])
+    fixture = sch.openapi.from_dict(st["raws"][case.get("dialect", "oas30")])
     root = fixture if case["door"] == "py" else sch.pytest.from_fixture("fixture_schema")
     nodes = [root]
     out = {"door": case["door"], "nodes": case["nodes"], "err": 0, "exc": "", "vecs": [], "stats": []}
@@ -473,7 +572,7 @@ def describe_tree(case: dict, cat: dict) -> str:
     parts = []
     for k, n in enumerate(case["nodes"], 1):
         parts.append("n%d = n%d.%s(**%s)" % (k, n["p"], n["m"], json.dumps(py_call(cat["filters"][n["f"] - 1]), sort_keys=True)))
-    return "door=%s n0 = %s; %s" % (case["door"], "from_dict(RAW)" if case["door"] == "py" else "from_fixture(unfiltered)", "; ".join(parts))
+    return "door=%s dialect=%s n0 = %s; %s" % (case["door"], case.get("dialect", "oas30"), "from_dict(RAW)" if case["door"] == "py" else "from_fixture(unfiltered)", "; ".join(parts))
 
 
 def _work_tree(item: str) -> dict:
@@ -483,11 +582,11 @@ def _work_tree(item: str) -> dict:
 # ---------------------------------------------------------------------------------------------------
 # expensive sites: real pytest process, real engine, real CLI
 # ---------------------------------------------------------------------------------------------------
-def _chain_src(cat: dict, calls: list[tuple[str, int]]) -> str:
+def _chain_src(cat: dict, calls: list[tuple[str, int]], rx: str = "text") -> str:
     src = ""
     for mode, f in calls:
-        kw = py_call(cat["filters"][f - 1])
-        src += ".%s(**%r)" % (mode, kw)
+        kw = py_call(cat["filters"][f - 1], rx)
+        src += ".%s(**%r)" % (mode, kw)  # a compiled pattern prints as re.compile('...')
     return src
 
 
@@ -498,12 +597,13 @@ def run_pytest_sample(ctx: Ctx, cat: dict, sample: list[dict]) -> dict[int, dict
         return {}
     d = ctx.path("pytest_run")
     os.makedirs(d, exist_ok=True)
-    json.dump(build_raw(cat), open(os.path.join(d, "raw.json"), "w"))
+    for dialect in ("oas30", "oas31", "swagger20"):
+        json.dump(build_raw(cat, dialect), open(os.path.join(d, "raw_%s.json" % dialect), "w"))
     lines = [
-        "import json, os, pytest, schemathesis",
+        "import json, os, re, pytest, schemathesis",
         "from hypothesis import settings, HealthCheck",
         "import rec_c07",
-        "RAW = json.load(open(os.path.join(os.path.dirname(__file__), 'raw.json')))",
+        "RAW = {d: json.load(open(os.path.join(os.path.dirname(__file__), 'raw_%s.json' % d))) for d in ('oas30', 'oas31', 'swagger20')}",
         "SET = settings(max_examples=1, deadline=None, database=None, suppress_health_check=list(HealthCheck))",
         "",
     ]
@@ -515,8 +615,8 @@ def run_pytest_sample(ctx: Ctx, cat: dict, sample: list[dict]) -> dict[int, dict
             lines += [
                 "@pytest.fixture",
                 "def fixture_%d():" % k,
-                "    return schemathesis.openapi.from_dict(RAW)%s" % _chain_src(cat, base_calls),
-                "lazy_%d = schemathesis.pytest.from_fixture('fixture_%d')%s" % (k, k, _chain_src(cat, calls)),
+                "    return schemathesis.openapi.from_dict(RAW[%r])%s" % (case.get("dialect", "oas30"), _chain_src(cat, base_calls)),
+                "lazy_%d = schemathesis.pytest.from_fixture('fixture_%d')%s" % (k, k, _chain_src(cat, calls, case.get("rx", "text"))),
                 "@SET",
                 "@lazy_%d.parametrize()" % k,
                 "def test_element_%d(case):" % k,
@@ -525,7 +625,7 @@ def run_pytest_sample(ctx: Ctx, cat: dict, sample: list[dict]) -> dict[int, dict
             ]
         else:
             lines += [
-                "schema_%d = schemathesis.openapi.from_dict(RAW)%s" % (k, _chain_src(cat, calls)),
+                "schema_%d = schemathesis.openapi.from_dict(RAW[%r])%s" % (k, case.get("dialect", "oas30"), _chain_src(cat, calls, case.get("rx", "text"))),
                 "@schema_%d.parametrize()" % k,
                 "@SET",
                 "def test_element_%d(case):" % k,
@@ -556,10 +656,10 @@ def run_pytest_sample(ctx: Ctx, cat: dict, sample: list[dict]) -> dict[int, dict
     return out
 
 
-def _behaviour(cat: dict):
+def _behaviour(cat: dict, dialect: str = "oas30"):
     from .server import json_response
 
-    raw = build_raw(cat)
+    raw = build_raw(cat, dialect)
 
     def behaviour(r):
         if r.path == "/openapi.json":
@@ -601,7 +701,7 @@ def run_engine(case: dict, cat: dict) -> dict:
     from .server import LoopbackServer
 
     _setup(cat)
-    with LoopbackServer(_behaviour(cat)) as server:
+    with LoopbackServer(_behaviour(cat, case.get("dialect", "oas30"))) as server:
         schema = build_schema(case, cat, base_url=server.base_url)
         settings = hypothesis.settings(max_examples=4, deadline=None, database=None, derandomize=True, stateful_step_count=5,
                                        suppress_health_check=list(hypothesis.HealthCheck))
@@ -630,7 +730,7 @@ def run_cli(case: dict, cat: dict) -> dict:
     _, argv = cli_arguments(cat, case["incl"], case["excl"])
     launcher = ("import sys; sys.path.insert(0, %r); from harness.compat import enable_links; enable_links(); "
                 "from schemathesis.cli import schemathesis; schemathesis()" % common.ROOT)
-    with LoopbackServer(_behaviour(cat)) as server:
+    with LoopbackServer(_behaviour(cat, case.get("dialect", "oas30"))) as server:
         proc = subprocess.run([PY, "-c", launcher, "run", server.base_url + "/openapi.json", "-n", "3", "--seed", "1", "--no-color",
                                "--workers", "1"] + argv, stdout=subprocess.PIPE, stderr=subprocess.STDOUT, text=True, timeout=600,
                               env=dict(os.environ, COLUMNS="200"))
@@ -683,7 +783,7 @@ def stratified(rng, items: list[tuple[int, dict]], k: int, key) -> list[tuple[in
 def _stratum(cat: dict):
     def key(case: dict):
         kinds = tuple(sorted({_kind(cat["filters"][f - 1]).split("/")[0].split("&")[0] for f in case["incl"] + case["excl"]}))
-        return (len(case["incl"]), len(case["excl"]), case["expect"][3], case["base"], kinds[:1])
+        return (len(case["incl"]), len(case["excl"]), case["expect"][3], case["base"], case.get("dialect"), kinds[:1])
     return key
 
 
@@ -767,6 +867,47 @@ def run(ctx: Ctx) -> Outcome:
                     {v["site"]: v["vec"] for v in observed[i]["vecs"]}, observed[i]["stats"], cases[i]["stat"], describe(cases[i], cat)),
                 {"kind": "element", "case": cases[i], "cat": cat,
                  "sites": sorted({v["site"] for v in observed[i]["vecs"]} | {s["site"] for s in observed[i]["stats"]})}))
+    # ---------------- GraphQL ----------------
+    gitems: list[dict] = []
+    gcats: list[dict] = []
+    gres = tlc.require_ok(tlc.run_tlc("FiltersGraphQL", "FiltersGraphQL.cfg", workers=1, timeout=1200, want_prints=False,
+                                      on_json=lambda tag, d: (gitems if tag == "GCASE" else gcats).append(d)), "FiltersGraphQL enumeration")
+    for inv in gres.violated:
+        out.violations.append(Violation("C07:spec:" + inv, "design invariant %s violated in FiltersGraphQL.tla" % inv,
+                                        {"kind": "spec", "invariant": inv, "trace": gres.counterexample[:60]}))
+    gcat = gcats[0]
+    t1 = time.time()
+    gobs = common.pmap(_work_graphql, [json.dumps([c, gcat]) for c in gitems])
+    t_gql = time.time() - t1
+    gfile = ctx.path("gql_obs.json")
+    tlc.write_json(gfile, [{k2: v for k2, v in o.items() if k2 != "exc"} for o in gobs])
+    gj = tlc.require_ok(tlc.run_tlc("FiltersGraphQLJudge", "FiltersGraphQLJudge.cfg", env={"OBS_FILE": gfile}, timeout=1200), "graphql judge")
+    g_tlc = {(p[1], p[2], p[3]) for p in gj.prints if isinstance(p, list) and p and p[0] == "DISAGREE"}
+    g_py = {(m, o, k) for m, (c, ob) in enumerate(zip(gitems, gobs), 1) for o, k in graphql_disagreements(c, ob)}
+    if g_tlc != g_py:
+        raise tlc.TLCFailure("graphql judge (TLC) and exporter disagree on %d cells: %s" % (len(g_tlc ^ g_py), sorted(g_tlc ^ g_py)[:5]))
+    gbad = [(c, ob) for c, ob in zip(gitems, gobs) if graphql_disagreements(c, ob)]
+    # a raised call is attributed to the filter kinds common to ALL raising elements of that door (one defect = one signature)
+    common_kinds: dict = {}
+    for c, ob in gbad:
+        if ob["err"]:
+            ks = {_kind(gcat["filters"][f - 1]) for f in c["incl"] + c["excl"]}
+            common_kinds[c["door"]] = ks if c["door"] not in common_kinds else common_kinds[c["door"]] & ks
+    for c, ob in gbad:
+        for o, kd in sorted(graphql_disagreements(c, ob)):
+            sig = graphql_signature(c, gcat, o, kd)
+            if kd == "raised":
+                sig = "C07:graphql-%s:selection:raised:%s" % (c["door"], "+".join(sorted(common_kinds.get(c["door"], []))) or "any")
+            per_sig[sig] = per_sig.get(sig, 0) + 1
+            if per_sig[sig] > 10:
+                continue
+            out.violations.append(Violation(
+                sig, "GraphQL schema, %s%s: expected %s (selected %d/%d), observed %s (%s/%s) %s; door=%s include=%s exclude=%s" % (
+                    kd, (" for " + text(gcat["ops"][o - 1]["label"])) if o else "", c["expect"], c["sel"], c["total"], ob["vec"], ob["sel"],
+                    ob["total"], ob["exc"], c["door"], [py_call(gcat["filters"][f - 1]) for f in c["incl"]],
+                    [py_call(gcat["filters"][f - 1]) for f in c["excl"]]),
+                {"kind": "graphql", "case": c, "cat": gcat}))
+
     # ---------------- derivation histories ----------------
     tree_cfgs = ["FiltersTree_quick.cfg"] if ctx.quick else ["FiltersTree_thorough.cfg", "FiltersTree_wide.cfg"]
     tree_stats = {"states": 0, "transitions": 0, "histories": 0, "judged": 0, "bad": 0, "tlc_s": 0.0, "replay_s": 0.0, "judge_s": 0.0}
@@ -818,13 +959,15 @@ def run(ctx: Ctx) -> Outcome:
     nontrivial = sum(1 for c in cases if 0 in c["expect"])
     shown = common.sample(rng, [i for i in rich if len(observed[i]["vecs"]) > 2] or good, 3)
     out.coverage = {
-        "states": res.distinct + tree_stats["states"],
-        "transitions": res.generated + tree_stats["transitions"],
-        "traces_validated_against_impl": len(judged_idx) + tree_stats["judged"],
+        "states": res.distinct + tree_stats["states"] + gres.distinct,
+        "transitions": res.generated + tree_stats["transitions"] + gres.generated,
+        "traces_validated_against_impl": len(judged_idx) + tree_stats["judged"] + len(gobs),
+        "graphql": {"elements": len(gitems), "disagreeing": len(gbad), "tlc_s": round(gres.wall_s, 1), "replay_s": round(t_gql, 1),
+                    "judge_s": round(gj.wall_s, 1)},
         "samples": [{"element": describe(cases[i], cat), "expected": cases[i]["expect"], "expected_stat": cases[i]["stat"],
                      "observed": {v["site"]: v["vec"] for v in observed[i]["vecs"]}, "observed_stat": observed[i]["stats"],
                      "state_machine_links": observed[i]["pairs"]} for i in shown] + ([tree_sample] if tree_sample else []),
-        "evaluations": len(cases) + tree_stats["histories"],
+        "evaluations": len(cases) + tree_stats["histories"] + len(gitems),
         "distinct_nontrivial": nontrivial + tree_stats["histories"],
         "derivation_histories": {k2: (round(v, 1) if isinstance(v, float) else v) for k2, v in tree_stats.items()},
         "rule": "every filter set reachable in Filters.tla under %s through the python, CLI and lazy-fixture doors (TLC-enumerated), each "
@@ -855,6 +998,8 @@ def run(ctx: Ctx) -> Outcome:
         "lazy fixture with include filters on both the fixture schema and the lazy schema: union and successive selection are both "
         "accepted readings; operations where they differ are not judged",
         "`!=` expressions on a pointer that does not resolve are not judged",
+        "the universe is serialised by the harness in three dialects (OpenAPI 3.0.2, 3.1.0, Swagger 2.0 with x-links); the spec assigns "
+        "dialect and regex form (text / compiled) to every element",
         "derivation histories: nodes are observed once, after all derivations, at get_all_operations() and statistic",
     ]
     return out
@@ -867,6 +1012,11 @@ def replay(ctx: Ctx, data: dict) -> Outcome:
         return out
     case, cat = data["case"], data["cat"]
     _CAT = cat
+    if data.get("kind") == "graphql":
+        gob = observe_graphql(case, cat)
+        for o, kd in sorted(graphql_disagreements(case, gob)):
+            out.violations.append(Violation(graphql_signature(case, cat, o, kd), "GraphQL %s operation %d: %s %s" % (kd, o, gob["vec"], gob["exc"]), data))
+        return out
     if data.get("kind") == "tree":
         tobs = observe_tree(case, cat)
         for sig, n, o, kd in tree_findings(case, tobs):
